@@ -878,11 +878,26 @@ def substitute_new_locals(fn, known_locals):
                         'clear', 'sort', 'reverse', 'update', 'add',
                         'discard', 'setdefault', 'popitem'):
               changed_in_place.add(x.func.value.id)
-            if isinstance(x, (ast.Subscript, ast.Attribute)) and isinstance(
+            if isinstance(x, ast.Subscript) and isinstance(
                 x.ctx, (ast.Store, ast.Del)) and isinstance(
                     x.value, ast.Name):
               changed_in_place.add(x.value.id)
-          if free & changed_in_place:
+            if isinstance(x, ast.Attribute) and isinstance(
+                x.ctx, (ast.Store, ast.Del)):
+              # self.kernel = ... changes `self.kernel`, not all of `self`
+              try:
+                changed_in_place.add(ast.unparse(x))
+              except Exception:  # pylint: disable=broad-except
+                pass
+          reads = set(free)
+          for x in ast.walk(s.value):
+            if isinstance(x, ast.Attribute):
+              try:
+                reads.add(ast.unparse(x))
+              except Exception:  # pylint: disable=broad-except
+                pass
+          if any(r == c or r.startswith(c + '.') or r.startswith(c + '[')
+                 for r in reads for c in changed_in_place):
             continue
           later = set()
           for st in block[i + 1:]:
